@@ -212,10 +212,10 @@ namespace nmtools::utils
                     if constexpr (meta::is_either_v<lhs_t>) {
                         // maybe nested either
                         // should be okay to instantiate since *ptr is either
-                        close = isclose(*l_ptr,u);
+                        close = isclose(*l_ptr,u,eps);
                     } else if constexpr (same_concept(lhs,ref)) {
                         // avoid instantiate if not the same concept
-                        close = isclose(*l_ptr,u);
+                        close = isclose(*l_ptr,u,eps);
                     } else {
                         // maybe encountered in nested either
                         // ignore, maybe this path doesn't have matched concept
@@ -226,10 +226,10 @@ namespace nmtools::utils
                     if constexpr (meta::is_either_v<rhs_t>) {
                         // maybe nested either
                         // should be okay to instantiate since *ptr is either
-                        close = isclose(*r_ptr,u);
+                        close = isclose(*r_ptr,u,eps);
                     } else if constexpr (same_concept(rhs,ref)) {
                         // avoid instantiate if not the same concept
-                        close = isclose(*r_ptr,u);
+                        close = isclose(*r_ptr,u,eps);
                     } else {
                         // maybe encountered in nested either
                         // ignore, maybe this path doesn't have matched concept
@@ -248,13 +248,13 @@ namespace nmtools::utils
                 if (auto l_ptr = get_if<lhs_t>(&u); l_ptr) {
                     constexpr auto lhs = meta::as_value_v<meta::resolve_optype_t<unwrap_t,lhs_t>>;
                     if constexpr (same_concept(lhs,ref)) {
-                        close = isclose(t,*l_ptr);
+                        close = isclose(t,*l_ptr,eps);
                     }
                 } else /* if (auto r_ptr = get_if<rhs_t>(&u); r_ptr) */ {
                     [[maybe_unused]] auto r_ptr = get_if<rhs_t>(&u);
                     constexpr auto rhs = meta::as_value_v<meta::resolve_optype_t<unwrap_t,rhs_t>>;
                     if constexpr (same_concept(rhs,ref)) {
-                        close = isclose(t,*r_ptr);
+                        close = isclose(t,*r_ptr,eps);
                     }
                 }
                 return close;
